@@ -232,8 +232,8 @@ def minimise(scn, prop, plan, trace, klass, budget=120, wall=60.0):
     r = execute_plan(scn, prop, best_plan, best_trace)
     v = same_class(r, klass)
     if v is None:  # should not happen (determinism); fall back to the original
-        return plan, list(trace), None, execs
-    return best_plan, list(r.chooser.trace)[: max(len(best_trace), r.chooser.pos)], v, execs
+        return plan, list(trace), None, execs, None
+    return best_plan, list(r.chooser.trace)[: max(len(best_trace), r.chooser.pos)], v, execs, r.log.digest()
 
 
 # ------------------------------------------------------------------------------------------------
@@ -417,11 +417,12 @@ def cmd_check(prop, tier, seed, runs_cap, budget, workers, det_k, write_evidence
         path = raw_path
         if time.time() - t_min0 < 240:
             try:
-                mp, mt, mv, execs = minimise(scn, prop, rec["plan"], rec["trace"], k)
+                mp, mt, mv, execs, mdigest = minimise(scn, prop, rec["plan"], rec["trace"], k)
                 if mv is not None:
                     # a minimised replay must itself not be a known finding
                     mrec = {"violation": mv.to_json(), "plan": mp, "trace": mt,
-                            "digest": rec["digest"], "minimised": True, "minimise_execs": execs,
+                            "digest": mdigest, "raw_digest": rec["digest"], "minimised": True,
+                            "minimise_execs": execs,
                             "raw": os.path.basename(raw_path)}
                     if match_known(known, mrec["violation"]) is None:
                         path = write_replay(prop, mrec, tag="-min")
